@@ -4,6 +4,7 @@ package symgo
 
 import (
 	"fmt"
+	"hash/fnv"
 	"math"
 	"math/bits"
 	"strconv"
@@ -112,6 +113,18 @@ func (c *TermCtx) intern(t *Term) *Term {
 		if a.depth >= t.depth {
 			t.depth = a.depth + 1
 		}
+	}
+	if t.op != "const" && t.op != "var" {
+		// content-addressed name: equal names denote structurally equal terms,
+		// whatever the creation order on a path
+		h := fnv.New64a()
+		h.Write([]byte(t.op))
+		h.Write([]byte{'|', byte('0' + t.sort)})
+		for _, a := range t.args {
+			h.Write([]byte{','})
+			h.Write([]byte(refName(a)))
+		}
+		t.name = fmt.Sprintf("t!%016x", h.Sum64())
 	}
 	c.tab[k] = t
 	return t
